@@ -132,12 +132,16 @@ func sizes(typ *types.Struct, prefix string, base int64, out []st.Field) []st.Fi
 	if len(out) == 0 {
 		return out
 	}
+	// The struct occupies [base, end).
+	end := base + s.Sizeof(typ)
 	field := &out[len(out)-1]
-	if field.Size == 0 {
+	if field.Size == 0 && field.End < end {
+		// The compiler pads a trailing zero-size field with one byte
+		// (unless the struct has no size at all).
 		field.Size = 1
 		field.End++
 	}
-	pad := s.Sizeof(typ) - field.End
+	pad := end - field.End
 	if pad > 0 {
 		out = append(out, st.Field{
 			IsPadding: true,
